@@ -26,7 +26,7 @@ import ast
 
 from ..absint import Interp, mk, sd
 from ..model import AnchorError, norm, walk_no_nested
-from ..runstate import Explorer, RunStateBinding, show, ENGINE, IMPL
+from ..runstate import Explorer, Explorers, RunStateBinding, show, ENGINE, IMPL
 from ..util import cfg_of, call_attr, assigned_attrs, node_calls
 
 EXPLANATION = __doc__
@@ -203,7 +203,10 @@ def run(ctx) -> None:
                      "while Paused/Holding")
     ctx.floor("R07b", 3)
     # ---- R07b model check
-    ex = Explorer(ctx, faults=True, track=("clk", "err"))
+    # two explorations: one user request per tick gap with a scheduler that may let in-flight commands stall (coarse), and two
+    # requests per gap with the exact scheduler of execute_commands (every driven command steps in every tick)
+    ex = Explorers(Explorer(ctx, faults=True, track=("clk", "err")),
+                   Explorer(ctx, faults=True, track=("clk", "err"), max_pending=2, exact=True))
     ex.explore()
     ctx.extra["states"] = len(ex.reach)
     ctx.extra["transitions"] = ex.edges
